@@ -31,12 +31,12 @@ type c11Call struct {
 }
 
 type c11World struct {
-	c     *fw.Case
-	rt    *simrt.RT
-	seq   int
-	ids   []desync.ChunkID
-	data  [][]byte
-	log   []*c11Call
+	c    *fw.Case
+	rt   *simrt.RT
+	seq  int
+	ids  []desync.ChunkID
+	data [][]byte
+	log  []*c11Call
 }
 
 func (w *c11World) idIndex(id desync.ChunkID) int {
@@ -456,7 +456,10 @@ func runC11(c *fw.Case) {
 		chainB = c11GenChain(c, w, "b", nids)
 	}
 	nclients := c.Range(1, 4, "clients")
-	type planned struct{ kind string; id int }
+	type planned struct {
+		kind string
+		id   int
+	}
 	plans := make([][]planned, nclients)
 	for i := range plans {
 		for j, n := 0, c.Range(1, 8, "ops"); j < n; j++ {
